@@ -6,7 +6,9 @@ package main
 // replayable from its text alone.
 
 import (
+	"encoding/binary"
 	"fmt"
+	"hash/crc32"
 	"io/ioutil"
 	"math"
 	"os"
@@ -46,6 +48,16 @@ type St struct {
 	lastOpenErr string
 	faultOp string // op of the event at which the injected fault fired
 	datWrites int  // complete data-file writes observed since the fault was armed
+	// bucket-meta oracle (HintBPTSparseIdxMode, single-bucket key/value histories): the smallest and largest key
+	// written by committed transactions, to be compared with what the bucket meta file decodes to
+	bmCheck bool
+	bmTx    [][2]string          // (bucket, key) of the key/value writes of the running transaction
+	bm      map[string][2]string // bucket -> (smallest key, largest key)
+	// entry-meta oracle: TTL and timestamp of the last committed put of every key; Get must hand back exactly these
+	// (Merge, reopen and index rebuilds move records, they must not restamp them)
+	mtTx [][5]string          // (op, bucket, key, ttl, ts) of the key/value writes of the running transaction
+	mt   map[string][2]string // bucket \x00 key -> (ttl, ts)
+	mtUnknown bool            // the put just executed took its timestamp from the library's clock
 }
 
 type Event struct {
@@ -74,6 +86,10 @@ func (s *St) reset() {
 	s.keys = map[string]bool{}
 	s.events = nil
 	s.intern = map[string][]byte{}
+	s.bm = map[string][2]string{}
+	s.bmTx = nil
+	s.mt = map[string][2]string{}
+	s.mtTx = nil
 }
 
 // arg returns the caller-side buffer for a byte-string argument.  Like an application that keeps
@@ -428,9 +444,15 @@ func (s *St) exec(call string) (rcall string, res string) {
 			v = []byte(strings.Repeat("\x01", int(room)))
 		}
 		return "put " + a[0] + " " + a[1] + " " + hx(v) + " 0 1700000000", errOr(tx.PutWithTimestamp(S(0), B(1), v, 0, 1700000000), "ok")
+	case "putcrc": // putcrc b k vprefix ttl ts target: a put whose value ends in four forged bytes that make the
+		// CRC-32 of the record equal to target when it is the last record of its transaction (status Committed)
+		s.keys[S(1)] = true
+		v := forgeCRC(tx.VerifID(), S(0), B(1), B(2), uint32(atou(a[3])), atou(a[4]), uint32(atou(a[5])))
+		return "put " + a[0] + " " + a[1] + " " + hx(v) + " " + a[3] + " " + a[4], errOr(tx.PutWithTimestamp(S(0), B(1), v, uint32(atou(a[3])), atou(a[4])), "ok")
 	case "putnow": // Put with the library's own clock; ts is an oracle input read from the clock
 		s.keys[S(1)] = true
 		before := time.Now().Unix()
+		s.mtUnknown = true
 		err := tx.Put(S(0), B(1), B(2), uint32(atou(a[3])))
 		after := time.Now().Unix()
 		_ = after
@@ -444,6 +466,12 @@ func (s *St) exec(call string) (rcall string, res string) {
 		}
 		if e == nil {
 			return call, "nil"
+		}
+		if want, ok := s.mt[S(0)+"\x00"+S(1)]; ok && !s.quiet {
+			f := nutsdb.VerifEntryFields(e)
+			if got := [2]string{strconv.FormatUint(uint64(f.TTL), 10), strconv.FormatUint(f.Timestamp, 10)}; got != want {
+				emit("#SPEC Get(%s, %s) returns an entry with TTL %s and timestamp %s; the committed put had TTL %s and timestamp %s", a[0], a[1], got[0], got[1], want[0], want[1])
+			}
 		}
 		return call, "entry " + hx(e.Key) + " " + hx(e.Value)
 	case "getall":
@@ -721,6 +749,10 @@ func (s *St) run(call string) string {
 	watchStart(call)
 	rc, res := s.exec(call)
 	watchStop()
+	if s.bmCheck {
+		s.bucketMetaOracle(rc, res)
+	}
+	s.entryMetaTrack(rc, res)
 	if s.quiet {
 		return res
 	}
@@ -779,4 +811,119 @@ func watchStop() {
 	watchMu.Lock()
 	watchCall = ""
 	watchMu.Unlock()
+}
+
+// forgeCRC returns prefix plus four bytes chosen so that the record (header without the checksum, bucket, key, value)
+// of a committed key/value put has the CRC-32 target.
+func forgeCRC(txid uint64, bucket string, key, prefix []byte, ttl uint32, ts uint64, target uint32) []byte {
+	h := make([]byte, 42)
+	binary.LittleEndian.PutUint64(h[4:12], ts)
+	binary.LittleEndian.PutUint32(h[12:16], uint32(len(key)))
+	binary.LittleEndian.PutUint32(h[16:20], uint32(len(prefix)+4))
+	binary.LittleEndian.PutUint16(h[20:22], nutsdb.DataSetFlag)
+	binary.LittleEndian.PutUint32(h[22:26], ttl)
+	binary.LittleEndian.PutUint32(h[26:30], uint32(len(bucket)))
+	binary.LittleEndian.PutUint16(h[30:32], nutsdb.Committed)
+	binary.LittleEndian.PutUint16(h[32:34], nutsdb.DataStructureBPTree)
+	binary.LittleEndian.PutUint64(h[34:42], txid)
+	c := crc32.ChecksumIEEE(h[4:])
+	c = crc32.Update(c, crc32.IEEETable, []byte(bucket))
+	c = crc32.Update(c, crc32.IEEETable, key)
+	c = crc32.Update(c, crc32.IEEETable, prefix)
+	tab := crc32.IEEETable
+	var rev [256]byte
+	for i := 0; i < 256; i++ {
+		rev[tab[i]>>24] = byte(i)
+	}
+	var idx [4]byte
+	r := target ^ 0xFFFFFFFF
+	for k := 3; k >= 0; k-- {
+		idx[k] = rev[r>>24]
+		r = (r ^ tab[idx[k]]) << 8
+	}
+	reg := c ^ 0xFFFFFFFF
+	out := append([]byte{}, prefix...)
+	for k := 0; k < 4; k++ {
+		out = append(out, byte(reg)^idx[k])
+		reg = tab[idx[k]] ^ (reg >> 8)
+	}
+	return out
+}
+
+// bucketMetaOracle: see St.bmCheck.  Every record of a committed transaction widens the key range of its bucket;
+// after the Commit the bucket meta file must decode (checksum included) to exactly that range.
+func (s *St) bucketMetaOracle(rc, res string) {
+	f := strings.Fields(rc)
+	if len(f) == 0 {
+		return
+	}
+	switch {
+	case f[0] == "begin":
+		s.bmTx = nil
+	case (f[0] == "put" || f[0] == "del") && res == "ok" && len(f) >= 3:
+		s.bmTx = append(s.bmTx, [2]string{string(unhx(f[1])), string(unhx(f[2]))})
+	case f[0] == "commit" && res == "ok" && s.opt.EntryIdxMode == nutsdb.HintBPTSparseIdxMode:
+		for _, bk := range s.bmTx {
+			r, ok := s.bm[bk[0]]
+			if !ok {
+				r = [2]string{bk[1], bk[1]}
+			}
+			if bk[1] < r[0] {
+				r[0] = bk[1]
+			}
+			if bk[1] > r[1] {
+				r[1] = bk[1]
+			}
+			s.bm[bk[0]] = r
+		}
+		s.bmTx = nil
+		for b, r := range s.bm {
+			m, err := nutsdb.ReadBucketMeta(filepath.Join(s.dir, "meta", "bucket", b+".meta"))
+			if err != nil || m == nil {
+				emit("#SPEC bucket-meta record of bucket %s does not decode after a successful Commit: %v", hx([]byte(b)), err)
+				continue
+			}
+			st, en := nutsdb.VerifBucketMetaFields(m)
+			if string(st) != r[0] || string(en) != r[1] {
+				emit("#SPEC bucket-meta record of bucket %s decodes to the key range [%s, %s], written keys span [%s, %s]",
+					hx([]byte(b)), hx(st), hx(en), hx([]byte(r[0])), hx([]byte(r[1])))
+			}
+		}
+	}
+}
+
+// entryMetaTrack: see St.mt.
+func (s *St) entryMetaTrack(rc, res string) {
+	defer func() { s.mtUnknown = false }()
+	f := strings.Fields(rc)
+	if len(f) == 0 {
+		return
+	}
+	switch {
+	case f[0] == "begin":
+		s.mtTx = nil
+	case f[0] == "put" && res == "ok" && len(f) >= 6:
+		op := "put"
+		if s.mtUnknown {
+			op = "del" // timestamp not known exactly: the key is not checked
+		}
+		s.mtTx = append(s.mtTx, [5]string{op, string(unhx(f[1])), string(unhx(f[2])), f[4], f[5]})
+	case f[0] == "del" && res == "ok" && len(f) >= 3:
+		s.mtTx = append(s.mtTx, [5]string{"del", string(unhx(f[1])), string(unhx(f[2])), "", ""})
+	case f[0] == "commit" && res == "ok":
+		for _, w := range s.mtTx {
+			if w[0] == "put" {
+				s.mt[w[1]+"\x00"+w[2]] = [2]string{w[3], w[4]}
+			} else {
+				delete(s.mt, w[1]+"\x00"+w[2])
+			}
+		}
+		s.mtTx = nil
+	case f[0] == "commit" || f[0] == "commitfault":
+		// a Commit that failed or whose outcome is in doubt: stop checking the keys it touched
+		for _, w := range s.mtTx {
+			delete(s.mt, w[1]+"\x00"+w[2])
+		}
+		s.mtTx = nil
+	}
 }
